@@ -298,6 +298,30 @@ def lock_window_section(rng, res, count):
                 res["violations"].append(("acknowledged-content-not-on-hub", f"{who}'s bytes were acknowledged ({'committed' if committed else 'conflict-copy'}) but are nowhere on the hub", rep))
 
 
+def refused_put_below_file_section(rng, res, count):
+    """C10: "a write whose streamed bytes do not match its declared hash or length changes no such path" — also when the Put's path
+    lies BELOW a path that is a regular file on the hub (the client turned `notes` into a directory). Whatever the hub does about
+    the clash, a Put it then refuses (wrong hash; fewer bytes than announced) leaves every listed path as it was (seed C10-L:
+    the file was moved aside to make room for the directory BEFORE the upload was verified)."""
+    for variant in ("wrong-hash", "short-content", "wrong-hash-deeper"):
+        c = b"upload that will be refused " + bytes(rng.bytes(6)).hex().encode()
+        h = bytes.fromhex(blake3_hex([c])[0])
+        tree = {"notes": b"a regular file named notes\n", "other.txt": b"other\n"}
+        path = "notes/x" if variant != "wrong-hash-deeper" else "notes/a/b/x"
+        if variant == "short-content":
+            stream = H.MAGIC + H.frame(H.req_hello()) + H.frame(H.req_put(path, None, len(c) + 50, h)) + c
+        else:
+            stream = H.MAGIC + H.frame(H.req_hello()) + H.frame(H.req_put(path, None, len(c), bytes(rng.bytes(32)))) + c + H.frame(H.req_list()) + H.frame(H.req_bye())
+        with Sandbox("C10") as sb:
+            root = sb.path("hub"); sb.write_tree(root, tree); os.makedirs(os.path.join(root, ".copia"), exist_ok=True)
+            rc, out, err = H.run_server(sb, root, stream)
+            after = nonstaging(H.hub_tree(root))
+        count("refused-put-below-a-file/" + variant)
+        rep = {"variant": variant, "put_path": path, "rc": rc, "replies": parse_replies(out), "before": sorted(tree), "after": sorted(after), "stderr": err[-200:]}
+        if after != tree:
+            res["violations"].append(("refused-put-changed-a-listed-path", f"a Put to {path} that the hub did not commit ({variant}) changed the listed paths: {sorted(tree)} -> {sorted(after)}", rep))
+
+
 def hasher_scope_section(rng, res, count):
     """C10: a Put is verified against the hash of ITS OWN bytes, whatever the session consumed before. One session: a request
     whose content X the hub reads without committing it (a refused path — the content is drained —, a wrong-hash Put), then a Put
@@ -347,6 +371,7 @@ def run(pid, tier, seed, rundir, model_run):
     if pid == "C10":
         write_error_section(rng, res, count)
         hasher_scope_section(rng, res, count)
+        refused_put_below_file_section(rng, res, count)
     ncases = 70 * (12 if tier == "thorough" else 1)
     global HASHCODES
     HASHCODES = HashCodes()
